@@ -130,6 +130,9 @@ def sign_req(key_name, pub_key, signer) -> tuple[FormalName, VarBinaryStr]:
 
 
 def derive_cert(key_name, issuer_id, pub_key, signer, start_time, expire_sec) -> tuple[FormalName, VarBinaryStr]:
+    # expire_sec is elapsed time: add it to the instant, not to the wall-clock reading of a zone whose offset may change
+    if start_time.utcoffset() is not None:
+        start_time = start_time.astimezone(UTC)
     end_time = start_time + timedelta(seconds=expire_sec)
     if isinstance(issuer_id, str):
         issuer_id = Component.from_str(issuer_id)
